@@ -424,7 +424,7 @@ class PrintVisitor(base_visitor.Visitor):
     if bases == ("TypedDict",):
       constants = {}
       for c in node.constants:
-        name, typ = c.split(": ")
+        name, typ = c.split(": ", 1)
         constants[name] = typ
       if any(not utils.is_valid_name(name) for name in constants):
         # We output the TypedDict in functional form, since using the class form
